@@ -125,16 +125,36 @@ def _c07():
     def q(name, T, K, nops, cap, rot, dyn=0, ic=0, tiers=('quick', 'thorough'), timeout=900, U=3):
         qs.append(Q(name, 'c07_vyukov.cpp', mode='coro', T=T, K=K, defs={'NOPS': nops, 'CAP': cap, 'ROTMAX': rot, 'DYNAMIC_BUFFER': dyn, 'ITEM_COUNTER': ic, 'VERIF_T': T},
                     spin={'do_enq|do_deq': U}, unwind=max(26, cap + 3), timeout=timeout, tiers=tiers, validate=6))
-    q('vyukov_static_cap2_T2_n2_K4', 2, 4, 2, 2, 3)
-    q('vyukov_dynamic_cap2_T2_n2_K4_ic', 2, 4, 2, 2, 3, dyn=1, ic=1)
+    q('vyukov_static_cap2_T2_n1_K4', 2, 4, 1, 2, 3)
+    q('vyukov_dynamic_cap2_T2_n1_K4_ic', 2, 4, 1, 2, 1, dyn=1, ic=1)
+    q('vyukov_static_cap2_T3_n1_K4', 3, 4, 1, 2, 2, tiers=('thorough',), timeout=3000)
+    q('vyukov_static_cap2_T2_n2_K4', 2, 4, 2, 2, 3, tiers=('thorough',), timeout=3000)
     q('vyukov_static_cap4_T2_n2_K5', 2, 5, 2, 4, 5, tiers=('thorough',), timeout=3000)
-    q('vyukov_static_cap2_T2_n2_K6', 2, 6, 2, 2, 3, tiers=('thorough',), timeout=3000)
     return qs
 CHECKS['C07'] = {
     'queries': _c07(), 'level': 'model_checking',
     'outside': ['intrusive::VyukovMPMCCycleQueue wrapper and the single-consumer front()/pop_front() pair (not encoded this round)',
-                'capacities above 4, more than 2 threads x 2 operations, more than K-1 context switches',
+                'quick: one operation per thread (2-3 threads) on a pre-rotated, pre-filled queue; thorough: 2 threads x 2 operations (no verdict within 15 min was observed for that bound, it may end as exit 2 = not decided)', 'capacities above 4, more than K-1 context switches',
                 'sequential consistency only: weakening a memory_order is not detectable'],
     'assumptions': ['context switches only immediately before atomic operations (DRF-SC)',
                     'retry iterations of enqueue_with/dequeue_with are read-only on shared state; more than U retries per call are cut by assume (stutter-equivalent for safety)'],
 }
+
+# ---------------------------------------------------------------- C01 / C03 (HP reclamation pass, sequentialised threads)
+def _c01(tag):
+    qs = []
+    import math
+    for st in ('classic', 'inplace'):
+        for nobj, hp, cap, tiers in ((2, 1, 2, ('quick', 'thorough')), (3, 2, 4, ('quick', 'thorough')), (4, 2, 4, ('thorough',))):
+            for order in range(math.factorial(nobj)):
+                qs.append(Q('hp_%s_scan_n%d_hp%d_order%d' % (st, nobj, hp, order), 'c01_hp.cpp', srcs=['hp.cpp'], mode='seq', opt='O1',
+                            defs={'NOBJ': nobj, 'HPCOUNT': hp, 'RETIRED_CAP': cap, 'SCAN_TYPE': st, 'ORDER': order}, unwind=24, timeout=600, tiers=tiers, validate=6))
+    return qs
+CHECKS['C01'] = {
+    'queries': _c01('C01'), 'level': 'model_checking',
+    'outside': ['interleavings of protect/retire/scan inside the operations (the two logical threads are switched only between API calls); Guard::protect republish loop',
+                'more than 2 threads, more than 4 objects, hazard-pointer counts above 2; odd object addresses',
+                'DefaultTLSManager (the harness supplies its own TLSManager through custom_HP, the documented extension point)'],
+    'assumptions': ['malloc never fails'],
+}
+CHECKS['C03'] = dict(CHECKS['C01'])
